@@ -272,8 +272,8 @@ func checkBlock(p sim.Params, prev, cur *ledger.Ledger, st hist.Step, res *sim.B
 		}
 		if d.Cmp(bigOf(allowed, c)) > 0 {
 			return &outcome{"value-created", "C02/value-created/" + c + "/" + who,
-				fmt.Sprintf("height %d: total %s grew by %s (from %s to %s) but only %s is allowed in this block (hooks: %v); per class before %v, after %v; successful kinds in the block: %s",
-					h, c, d, bigOf(tp, c), bigOf(tc, c), bigOf(allowed, c), hooks, prev.TotalsByClass()[c], cur.TotalsByClass()[c], okKinds(st, res))}, f
+				fmt.Sprintf("height %d: total %s grew by %s (from %s to %s) but only %s is allowed in this block (hooks: %v); per class before %v, after %v; successful kinds in the block: %s; changed records: %s",
+					h, c, d, bigOf(tp, c), bigOf(tc, c), bigOf(allowed, c), hooks, prev.TotalsByClass()[c], cur.TotalsByClass()[c], okKinds(st, res), changedRecords(prev, cur, c))}, f
 		}
 	}
 
@@ -302,7 +302,7 @@ func checkBlock(p sim.Params, prev, cur *ledger.Ledger, st hist.Step, res *sim.B
 		if t.Code == 0 && i < len(st.Tags) {
 			for _, x := range splitTags(st.Tags[i]) {
 				if hostileTag(x) {
-					f.classes = append(f.classes, "ok-with:"+x)
+					f.classes = append(f.classes, "ok-with:"+k+":"+x)
 				}
 			}
 		}
@@ -321,6 +321,43 @@ func checkBlock(p sim.Params, prev, cur *ledger.Ledger, st hist.Step, res *sim.B
 		f.key = strings.Join(parts, ";") + "|" + strings.Join(hooks, ",")
 	}
 	return nil, f
+}
+
+// changedRecords renders the value records of currency c that differ between two ledgers.
+func changedRecords(a, b *ledger.Ledger, c string) string {
+	idx := func(l *ledger.Ledger) map[string]*big.Int {
+		m := map[string]*big.Int{}
+		for _, e := range l.Entries {
+			if e.InTotal && e.Cur == c {
+				m[e.Key] = e.Amt
+			}
+		}
+		return m
+	}
+	x, y := idx(a), idx(b)
+	ks := map[string]bool{}
+	for k := range x {
+		ks[k] = true
+	}
+	for k := range y {
+		ks[k] = true
+	}
+	var sorted []string
+	for k := range ks {
+		sorted = append(sorted, k)
+	}
+	sort.Strings(sorted)
+	var out []string
+	for _, k := range sorted {
+		p, q := bigOf(x, k), bigOf(y, k)
+		if p.Cmp(q) != 0 {
+			out = append(out, fmt.Sprintf("%q %s -> %s (%+d)", k, p, q, new(big.Int).Sub(q, p)))
+		}
+	}
+	if len(out) > 14 {
+		out = append(out[:14], "…")
+	}
+	return strings.Join(out, "; ")
 }
 
 // valueMoved reports whether any value record differs between the two ledgers.
@@ -458,19 +495,14 @@ func excludedTx(h *run.H, tx txgen.Tx) bool {
 	return false
 }
 
-// drawTxs draws the next block's transactions, replacing draws of excluded classes.
+// drawTxs draws the next block's transactions (single draws and composite bursts) and drops draws of
+// classes excluded by a known finding (counted as excluded draws).
 func drawTxs(h *run.H, g *hist.Gen, max int) []txgen.Tx {
-	n := rapid.IntRange(0, max).Draw(g.T, "ntx")
-	out := make([]txgen.Tx, 0, n)
-	for i := 0; i < n; i++ {
-		tx := g.Draw()
-		for tries := 0; tries < 6 && excludedTx(h, tx); tries++ {
-			tx = g.Draw()
+	var out []txgen.Tx
+	for _, tx := range g.DrawTxs(max) {
+		if !excludedTx(h, tx) {
+			out = append(out, tx)
 		}
-		if excludedTx(h, tx) {
-			continue
-		}
-		out = append(out, tx)
 	}
 	return out
 }
@@ -484,8 +516,8 @@ func TestC02(t *testing.T) {
 	maxBlocks := h.Scale(30, 60)
 	rapid.Check(t, func(rt *rapid.T) {
 		p := hist.GenParams(rt, fmt.Sprint(h.Seed))
-		prof := hist.ProfileNames[rapid.IntRange(0, len(hist.ProfileNames)-1).Draw(rt, "profile")]
-		hostile := rapid.SampledFrom([]int{25, 30, 35}).Draw(rt, "hostile")
+		prof := hist.PickProfile(rt)
+		hostile := []int{25, 30, 35}[hist.NewU(rt).N(3, "hostile")]
 		tr := &hist.Trace{Params: p, Roles: hist.Roles(p, 1), Profile: prof}
 		nb := rapid.IntRange(4, maxBlocks).Draw(rt, "nblocks")
 		var g *hist.Gen
